@@ -385,6 +385,7 @@ func (*SlidingWindow).triggerSpecificWindowLocked
 
 func (*SlidingWindow).triggerLateUpdateLocked
   props C02 C08
+  atreturn every-buffered-row-is-looked-at-for-the-late-update: $done3
   held sw.mu
   requires swInv(sw) && slot != nil && slot.Start != nil && slot.End != nil
   modifies *
@@ -668,6 +669,7 @@ func feedTriggerAggs
 
 func newGroupState
   props C17 C04 C12
+  atreturn every-output-and-trigger-aggregate-gets-its-accumulator: $done2 && $done3
   modifies pkgheaps(functions)
   ensures starts-from-empty: fresh(result) && !result.hasData && fresh(result.keyValues) && fresh(result.outputAggs) && fresh(result.triggerAggs) && result.key == key
   loop 1 invariant fresh(gs) && fresh(gs.keyValues) && fresh(gs.outputAggs) && fresh(gs.triggerAggs) && !gs.hasData && gs.key == key
@@ -776,6 +778,8 @@ func (*GlobalWindow).buildOutputSpecs
   requires gw != nil
   modifies gw.outputSpecs
   ensures every-output-aggregate-is-a-select-item-with-its-own-type-and-input-column: forall(j, len(old(gw.outputSpecs)), len(gw.outputSpecs), dom(gw.config.SelectFields, gw.outputSpecs[j].alias) && gw.outputSpecs[j].aggType == gw.config.SelectFields[gw.outputSpecs[j].alias] && gw.outputSpecs[j].inputField == ite(gw.config.FieldAlias[gw.outputSpecs[j].alias] == "", gw.outputSpecs[j].alias, gw.config.FieldAlias[gw.outputSpecs[j].alias]) && gw.outputSpecs[j].prototype != nil && gw.outputSpecs[j].prototype == aggregator.CreateBuiltinAggregator(gw.outputSpecs[j].aggType))
+  ensures no-runnable-select-aggregate-is-left-without-a-spec: forallv(a, "", dom(gw.config.SelectFields, a) && gw.config.SelectFields[a] != "post_aggregation" && gw.config.SelectFields[a] != "expression" && aggregator.CreateBuiltinAggregator(gw.config.SelectFields[a]) != nil ==> exists(j, 0, len(gw.outputSpecs), gw.outputSpecs[j].alias == a))
+  loop 1 invariant forallv(a, "", $visited[a] && dom(gw.config.SelectFields, a) && gw.config.SelectFields[a] != "post_aggregation" && gw.config.SelectFields[a] != "expression" && aggregator.CreateBuiltinAggregator(gw.config.SelectFields[a]) != nil ==> exists(j, 0, len(gw.outputSpecs), gw.outputSpecs[j].alias == a))
   ensures earlier-specs-kept: len(gw.outputSpecs) >= len(old(gw.outputSpecs)) && forall(j, 0, len(old(gw.outputSpecs)), gw.outputSpecs[j] == old(gw.outputSpecs)[j])
   ensures no-error: result == nil
   loop 1 invariant len(gw.outputSpecs) >= len(old(gw.outputSpecs)) && forall(j, 0, len(old(gw.outputSpecs)), gw.outputSpecs[j] == old(gw.outputSpecs)[j])
